@@ -123,6 +123,7 @@ from pyvc.values import TOpt as _TOpt, TRec as _TRec, TNone as _TNone   # noqa: 
 
 @contract("rig/bitfield.py::BitField.add_field@if:1")
 class AddFieldFitsCheck:
+    fragment_head = 'raise ValueError("Field doesn\'t fit within {}-bit bit field.".format(self.length))'   # (anchored by what the `if` guards: its condition is what is verified)
     """`if start_at is not None and (...): raise ValueError(...)`: a field given an explicit position is rejected exactly when it
     does not lie inside the bit field [0, length).  (What the extraction drops: the rest of add_field - the length check before it,
     the overlap loop, tag handling and the insertion into the field tree.)"""
@@ -151,6 +152,7 @@ class AddFieldFitsCheck:
 
 @contract("rig/bitfield.py::BitField.add_field@forbody:0")
 class AddFieldOverlapCheck:
+    fragment_head = "for other_identifier, other_field in self.fields.potential_fields(self.field_values):"
     """ONE iteration of the loop over the fields that can be present together with the new one: an explicitly positioned new
     field is rejected exactly when its bit range meets the range of an explicitly positioned other field."""
     properties = ("C08",)
